@@ -8,7 +8,7 @@ ACFG = """SPECIFICATION Spec
 CONSTANTS
   Passes = {%s}
   InitFails = %s
-  LatchReturnsError = %s
+  LatchSkips = %s
 INVARIANTS %s
 """
 AINV = "NoPanic CfgOrErr NoPartial NoParamRace WrittenOnce MutexOK"
@@ -20,7 +20,7 @@ def design(ctx, passes=3):
     r = ctx.tlc("Analyzer", cfg_text=ACFG % (ps, "FALSE", "TRUE", AINV), workers=4, timeout=300, expect="ok")
     out["initOK"] = r.distinct
     r = ctx.tlc("Analyzer", cfg_text=ACFG % (ps, "TRUE", "TRUE", AINV), workers=4, timeout=300, expect="ok")
-    out["initFails_latchReturnsError"] = r.distinct
+    out["initFails_latchSkips"] = r.distinct
     r = ctx.tlc("Analyzer", cfg_text=ACFG % (ps, "TRUE", "FALSE", AINV), workers=4, timeout=300, expect="violation")
     out["whatif_latchReturnsNeither"] = r.violated
     return out
@@ -60,7 +60,7 @@ def concurrent_runs(ctx, w, thorough):
     if not ds:
         raise vlib.Infra("analyzer produced no diagnostics on the workspace")
     out["diagnostics"] = len(ds)
-    ok, bad, st = ctx.validate_trace("TraceAnalyzer", tf, chunks=1, env={"INITFAILS": "0", "LATCHERR": "1"})
+    ok, bad, st = ctx.validate_trace("TraceAnalyzer", tf, chunks=1, env={"INITFAILS": "0"})
     n = sum(1 for _ in open(tf))
     out["traces"] += 1
     out["events"] += n
